@@ -66,7 +66,8 @@ def make_small(rng):
                                     for _ in range(n)], dtype=object)
         elif kind == 'obj_mixed':
             na = rng.choice([None, np.nan])     # one kind of missing marker per column
-            cols[name] = pd.Series([rng.choice([na, na, 1, 'x', 2.5, 'y', i]) for i in range(n)],
+            cols[name] = pd.Series([rng.choice([na, na, 1, 'x', 2.5, 'y', i, '1', 1.0, True, '2.5', str(i), 0, False, '0'])
+                                    for i in range(n)],
                                    dtype=object)
         elif kind == 'bool':
             cols[name] = pd.Series([rng.random() < 0.5 for _ in range(n)], dtype='bool')
